@@ -302,7 +302,8 @@ class SoftTTLCache(Entity):
             # Check if the refresh completed
             if key in self._cache:
                 return self._cache[key].value
-            return None
+            # The refresh has not landed yet (it may finish at this very instant,
+            # after us): fetch the value ourselves rather than report a miss.
 
         # Fetch from backing store (blocking)
         value = yield from self._backing_store.get(key)
